@@ -92,7 +92,7 @@ func c09World(t *testing.T, r *simcore.Run) any {
 	idx := int(r.Index)
 	total := c09Total()
 	nEnumRuns := (total + c09CasesPerRun - 1) / c09CasesPerRun
-	overSCION := false
+	overSCION, srvAuth := false, false
 	switch {
 	case idx >= nEnumRuns && idx < 2*nEnumRuns:
 		overSCION = true
@@ -113,7 +113,8 @@ func c09World(t *testing.T, r *simcore.Run) any {
 		scDrawFamily(r)
 		sw = newSCIONWorld(r, time.Duration(tp.Range(0, int64(time.Hour), "srvoff")), 1)
 		r.ProcDelayMaxNs = []int64{0, 20000}[tp.Intn(2, "pdelay")]
-		sw.startServers(4, false, 0, prov, false)
+		srvAuth = tp.Bool(1, 2, "srvauth") // listeners with a DRKey fetcher (packet authentication on)
+		sw.startServers(4, srvAuth, 0, prov, false)
 		net, srvHost, cliNode, spawn = sw.net, sw.srv, sw.cli.Node, sw.goSafe
 		rtr = netip.AddrPortFrom(netip.MustParseAddr(scRouterIP(0)), scRouterPort)
 		if tp.Bool(2, 3, "path") {
@@ -131,6 +132,11 @@ func c09World(t *testing.T, r *simcore.Run) any {
 	cliIP, atkIP := ipCliIP, ipAtkIP
 	if overSCION {
 		cliIP, atkIP = scCliIP, scAtkIP
+		if tp.Bool(1, 3, "mixedfamily") {
+			// the requesting host's address is of the other family than the server's
+			cliIP = map[bool]string{true: "10.9.9.9", false: "fd00:9::9"}[scV6]
+			r.Probe("mixed-address-families")
+		}
 	}
 	// wrap puts an NTP payload on the wire towards the listeners
 	wrap := func(payload []byte, srcIP string, srcPort uint16, note string) *simnet.Datagram {
@@ -256,6 +262,20 @@ func c09World(t *testing.T, r *simcore.Run) any {
 		defer r.Finish()
 		for i := range cases {
 			c := &cases[i]
+			if overSCION && i%12 == 0 {
+				// a packet with an end-to-end extension carrying an authenticator option of an
+				// unsupported length: dropped by a listener with packet authentication on, answered
+				// (the option ignored) by one without; either way the requests that follow it are
+				// judged on their own
+				hdr := make([]byte, 48)
+				hdr[0] = 0x23
+				raw := c08SCIONPacket(tp, scSvcPort, segs, 12, -1, hdr)
+				net.Inject(net.NewDatagram(rtr, netip.AddrPortFrom(netip.MustParseAddr(scSrvIP), scSvcPort), raw, "odd authenticator option"), 20*time.Microsecond)
+				r.Fault("odd-authenticator-option")
+				if r.Sleep(fmt.Sprintf("odd:%d", i), cliNode, time.Millisecond).Killed {
+					return
+				}
+			}
 			c.srcPort = 5000
 			if mode == "sampled" && tp.Bool(1, 3, "port") {
 				c.srcPort = uint16(1 + tp.Intn(65535, "sport"))
